@@ -24,6 +24,21 @@ CHECKS = {
             "Seeded search over (i) splits of a byte string into 1-6 volumes (empty ones included), each behind a scripted short-read source, driven by random read/seek histories and compared after every operation with std::io::Cursor over the concatenation (data, positions, error/ok of every seek); (ii) generated zip archives (nested dirs, hostile '..'/absolute names, odd characters, empty members; single file or multi-volume on disk) extracted through the real extract_archives() with generated glob patterns into a temp dir inside a sandbox whose parent, siblings and pre-existing neighbour files are scanned afterwards. Sampling, not proof.",
             "Cursor is the reference for 'a single file'; the glob crate decides pattern matching; cancellation is only injected before extraction starts (no seam inside extract_to_dir's loop); member names that denote a directory ('x/..') are outside the input space.",
             "DESIGN.md §6 C20"),
+    "C05": ("worldsim", "exploration",
+            "deterministic simulation: discrete-event world (ECUs, transport, recorder) with fault injection feeding the real lifecycle stage",
+            "Seeded search over simulated worlds (1-4 ECUs, reboots at arbitrary instants, suspend/resume, constant/jittered/late-connect/spiking transport delays up to > 60 s, drops, duplicates, reorders, timestamp corruption, recorder clock jumps and coarse clock, injected control requests, ECU without timestamps; swarm subsets per run), optionally in two batches with the returned write handle (pre-populated table). Output compared position by position with the input; every lifecycle id looked up in the final table. Sampling, not proof.",
+            "The world model is ours; reception times stay above 120 s after the epoch (smaller ones are C03's arithmetic-overflow territory); lifecycle ids are never assumed, the global id counter is aligned per run so evmap iteration order is process-independent.",
+            "DESIGN.md §6 C05"),
+    "C07": ("worldsim", "exploration",
+            "deterministic simulation: discrete-event world biased to confirm-then-merge and crossing resume shapes feeding the real lifecycle stage and listing",
+            "Seeded search over worlds as in C05, half of them biased to several ECUs x several short boots x delay spikes x suspend/resume (the shapes that confirm a lifecycle and merge it afterwards or produce resume lifecycles whose start estimates cross). After the stage returns: histogram of delivered lifecycle ids vs published table (phantoms, counts, sum, merged entries) and the user-visible listing (can be produced, permutation, resume after origin via hook H3, start order without resumes). Sampling, not proof.",
+            "Resume origin read through the cfg-guarded accessor H3; world model is ours.",
+            "DESIGN.md §6 C07"),
+    "C08": ("worldsim", "exploration",
+            "deterministic simulation: ground-truth world restricted to the statement's clean class, detector output compared with ground truth",
+            "Seeded search over worlds of the literal class of the statement (sequential boots with off time >= 1 ms, one constant delay per boot 0-90 s, arbitrary in-boot stream order, 1-2 message boots, first timestamp 0, optional > 10 s gap, 1-4 ECUs interleaved arbitrarily); partition, start, end and count per boot compared exactly with the ground truth. One open finding family (late-connect overlap) is recognised structurally on the ground truth and reported as KNOWN-FINDING; any deviation involving a boot outside such an overlap is a violation. Sampling, not proof.",
+            "The generator is the encoding of the class and is re-checked on the concrete world before judging; the finding predicate is evaluated on ground truth, never on the detector's output.",
+            "DESIGN.md §6 C08"),
 }
 
 NOT_APPLICABLE = {
